@@ -23,6 +23,7 @@ type Plan struct {
 	Steps    []Step           `json:"steps,omitempty"`    // component scenarios: scripted steps
 	Offset   int64            `json:"offset"`             // fake ns slept before anything starts (seeds the daemon's PRNGs)
 	Cancel   uint64           `json:"cancel,omitempty"`   // order in which a cancelled context cancels its children (0 = insertion order)
+	Sched    uint64           `json:"sched,omitempty"`    // seed of the yield perturbation: at the synchronisation points tools/yieldinst marked, a goroutine steps back behind the other runnable ones when this sequence says so (0 = never)
 	Nodes    []NodeSpec       `json:"nodes"`
 	Loop     []RouteW         `json:"loop,omitempty"`    // loopback routes (world-global)
 	LoopIdx  []int            `json:"loopidx,omitempty"` // indexes of loopback interfaces (default [1])
@@ -130,7 +131,7 @@ type Fault struct {
 	Err   string `json:"err,omitempty"`
 	Lat   int64  `json:"lat,omitempty"`  // fake ns the call takes
 	Hold  string `json:"hold,omitempty"` // park until released
-	Mode  string `json:"mode,omitempty"` // listings: perm, dup, empty
+	Mode  string `json:"mode,omitempty"` // listings: perm, dup, empty; sysctl reads: sampled (value taken before the delay/hold)
 	Arg   int64  `json:"arg,omitempty"`  // seed for perm/dup
 }
 
